@@ -119,6 +119,12 @@ PROPS = {
         oracle='exact sum / sum+count / extreme at every quiescent read over generations of threads (slot reuse) and generations of counter instances (storage reuse, moves); values chosen from {min,-1,0,1,max}; local() identity and privacy; for_each covers every slot ever used, for_each_alive exactly the live ones (both overloads); concurrent read bounded by completed-before / started-before contributions',
         assumptions=['histories of thread births/deaths and instance create/destroy/move are enumerated through data choices (bbmc::choose) up to 4 steps'],
     ),
+    'C07': dict(
+        title='executors: an accepted task runs exactly once; stop() drains submitted work',
+        quick=[mc('mc_exec', '0,2,3,4,6,7,8', 'sc', P=1, E=1, budget=150), mc('mc_exec', '1,5', 'sc', P=1, E=0, budget=150)],
+        thorough=[mc('mc_exec', 'all', 'sc', P=2, E=1, budget=2400), mc('mc_exec', '0,2,4', 'tso', P=1, D=1, E=0, budget=600)],
+        oracle='run counter per accepted task exactly 1, is_running_in() true inside tasks and children, futures ready with the result when stop()/join() returns, children spawned into local queues finished before stop() returns, refused submissions (fault choices) never run and yield invalid futures, no deadlock with full queues',
+    ),
 }
 
 SEQX_ASSUMPTIONS = [
